@@ -139,7 +139,7 @@ class Ctx(object):
         return "violation"
 
     # ---- end of run
-    def finish(self):
+    def finish(self, write_evidence=True):
         wall = time.time() - self.t0
         self.cov["distinct_nontrivial"] = len(self.classes)
         self.cov["known_findings_hit"] = {k: v[0] for k, v in self.known_hit.items()}
@@ -147,12 +147,13 @@ class Ctx(object):
             self.cov["samples"] = ["(no sample recorded)"]
         ev = {"property_id": self.prop, "tier": self.tier, "seed": self.seed, "level": self.level, "coverage": self.cov,
               "assumptions": self.assumptions, "wall_s": round(wall, 2), "violations": len(self.violations)}
-        os.makedirs(os.path.join(VERIF, "evidence"), exist_ok=True)
-        with open(os.path.join(VERIF, "evidence", self.prop + ".json"), "w") as f:
-            json.dump(ev, f, indent=1, sort_keys=True)
-        os.makedirs(os.path.join(OUT, "census"), exist_ok=True)
-        with open(os.path.join(OUT, "census", "%s-%s-%d.json" % (self.prop, self.tier, self.seed)), "w") as f:
-            json.dump(self.all_items, f)
+        if write_evidence:                      # (a --replay of one stored case judges it again but leaves the evidence of the last full run alone)
+            os.makedirs(os.path.join(VERIF, "evidence"), exist_ok=True)
+            with open(os.path.join(VERIF, "evidence", self.prop + ".json"), "w") as f:
+                json.dump(ev, f, indent=1, sort_keys=True)
+            os.makedirs(os.path.join(OUT, "census"), exist_ok=True)
+            with open(os.path.join(OUT, "census", "%s-%s-%d.json" % (self.prop, self.tier, self.seed)), "w") as f:
+                json.dump(self.all_items, f)
         for k, (cnt, e) in sorted(self.known_hit.items()):
             print("KNOWN-FINDING: property=%s %s [%s, %d cases]" % (self.prop, e.get("what", ""), k, cnt))
         seen = set()
